@@ -1524,13 +1524,62 @@ func (c *Ctx) visitedPairsGuard(all []termEdge, e termEdge, reach func(*ssa.Func
 	if memo == nil {
 		return ""
 	}
+	// the test and the insertion may sit in a helper that is handed the set (`if !compared.enter(a, b) { return nil }`):
+	// the outcome of the helper that lets the comparison go on implies the not-found outcome of a lookup in the set, and
+	// every way out of the helper with that outcome has inserted into it
+	helperInserts := func(h *ssa.Function, set *ssa.Parameter, cond core.Cond) bool {
+		ins := func(b *ssa.BasicBlock) bool {
+			for _, in := range b.Instrs {
+				if mu, ok := in.(*ssa.MapUpdate); ok && mu.Map == ssa.Value(set) {
+					return true
+				}
+			}
+			return false
+		}
+		hold := mustHoldGen(h, func(core.Cond) bool { return false }, ins)
+		// the ways out on which the lookup was not found
+		n := 0
+		for _, r := range core.ReturnsOf(h) {
+			nf := false
+			for _, rc := range r.Conds() {
+				if ex, ok := rc.V.(*ssa.Extract); ok && ex.Index == 1 && !rc.True {
+					if lk, ok := ex.Tuple.(*ssa.Lookup); ok && lk.CommaOk && lk.X == ssa.Value(set) {
+						nf = true
+					}
+				}
+			}
+			if !nf {
+				continue
+			}
+			n++
+			if !hold[r.Key()] && !ins(r.Block()) {
+				return false
+			}
+		}
+		return n > 0
+	}
+	viaHelper := false
 	notFound := func(cond core.Cond) bool {
 		ex, ok := cond.V.(*ssa.Extract)
 		if !ok || ex.Index != 1 || cond.True {
 			return false
 		}
 		lk, ok := ex.Tuple.(*ssa.Lookup)
-		return ok && lk.CommaOk && lk.X == ssa.Value(memo)
+		if !ok || !lk.CommaOk {
+			return false
+		}
+		if lk.X == ssa.Value(memo) {
+			return true
+		}
+		if cond.Via != nil && viaArg(cond, lk.X) == ssa.Value(memo) {
+			if h := core.StaticBody(&cond.Via.Call); h != nil {
+				if set, isParam := lk.X.(*ssa.Parameter); isParam && helperInserts(h, set, cond) {
+					viaHelper = true
+					return true
+				}
+			}
+		}
+		return false
 	}
 	inserted := func(b *ssa.BasicBlock) bool {
 		for _, in := range b.Instrs {
@@ -1545,7 +1594,7 @@ func (c *Ctx) visitedPairsGuard(all []termEdge, e termEdge, reach func(*ssa.Func
 		return false
 	}
 	b := e.site.Block()
-	if !core.MustHold(fn, notFound)[b] || !(mustHoldGen(fn, func(core.Cond) bool { return false }, inserted)[b] || inserted(b)) {
+	if !core.MustHold(fn, notFound)[b] || !(viaHelper || mustHoldGen(fn, func(core.Cond) bool { return false }, inserted)[b] || inserted(b)) {
 		return ""
 	}
 	// the call hands the set on
